@@ -34,12 +34,16 @@ static int process_data(xfrm_stream_t *stream, const void *in,
 	xfrm_zstd_t *zstd = (xfrm_zstd_t *)stream;
 	ZSTD_outBuffer out_desc;
 	ZSTD_inBuffer in_desc;
+	bool flushed;
 	size_t ret;
 
 	if (flush_mode < 0 || flush_mode >= XFRM_STREAM_FLUSH_COUNT)
 		flush_mode = XFRM_STREAM_FLUSH_NONE;
 
-	while (in_size > 0 && out_size > 0) {
+	/* when finishing a frame, keep going until the encoder is drained */
+	flushed = !(zstd->compress && flush_mode == XFRM_STREAM_FLUSH_FULL);
+
+	while ((in_size > 0 || !flushed) && out_size > 0) {
 		memset(&in_desc, 0, sizeof(in_desc));
 		in_desc.src = in;
 		in_desc.size = in_size;
@@ -67,14 +71,17 @@ static int process_data(xfrm_stream_t *stream, const void *in,
 		out = (char *)out + out_desc.pos;
 		out_size -= out_desc.pos;
 		*out_written += out_desc.pos;
+
+		if (!flushed && in_size == 0 && ret == 0)
+			flushed = true;
 	}
 
 	if (flush_mode != XFRM_STREAM_FLUSH_NONE) {
-		if (in_size == 0)
+		if (in_size == 0 && flushed)
 			return XFRM_STREAM_END;
 	}
 
-	if (in_size > 0 && out_size == 0)
+	if ((in_size > 0 || !flushed) && out_size == 0)
 		return XFRM_STREAM_BUFFER_FULL;
 
 	return XFRM_STREAM_OK;
